@@ -236,6 +236,13 @@ for k in KINDS:
     add_comp(f"#[storage({k})]", f"{k}<@>", body="(T);", generic=True)
     add_comp(f"#[storage({k}<Self>)]", f"{k}<@>", body=" { a: T, b: u32 }", generic=True)
     add_comp(f"#[storage({k})]", f"{k}<@>", body=" { a: u32, b: String }")
+    # the storage attribute among other attributes, in every position
+    add_comp(f"#[allow(dead_code)]\n#[storage({k})]", f"{k}<@>")
+    add_comp(f"/// documented\n#[allow(dead_code)]\n#[repr(C)]\n#[storage({k}<Self>)]", f"{k}<@>")
+    add_comp(f"#[derive(Clone)]\n#[storage({k})]\n#[allow(dead_code)]", f"{k}<@>")
+    add_comp(f"/// documented\n#[storage({k})]\n/// more\n#[repr(C)]", f"{k}<@>", body=" { a: u32, b: String }")
+add_comp("#[allow(dead_code)]", "DenseVecStorage<@>")
+add_comp("/// documented\n#[repr(C)]", "DenseVecStorage<@>", body=" { x: u32 }")
 add_comp("", "DenseVecStorage<@>")
 add_comp("", "DenseVecStorage<@>", body="(T);", generic=True)
 add_comp("", "DenseVecStorage<@>", body=" { x: u32 }")
